@@ -13,7 +13,8 @@ ALPHA = ['&', '<', '>', '"', "'", ';', '#', '3', '4', 'a', 'm', 'p', 'l', 't', '
          'é', '\U0001F600', '\x00', '\n', ' ', '%', 's', '(', ')', 'k', '-', '!', 'x', '\\', '\t', '\x7f']
 FRAGS = ['&amp;', '&lt;', '&gt;', '&#34;', '&quot;', '&apos;', '&amp;amp;', '&amp;lt;', '&#', '&l', 't;', '&amp',
          '&&', '<<>>', '&hellip;', '&#65;', '&#x41;', '&#X3c', '&foo;', '&#55357;', '&#1114112;', '&nbsp',
-         '<b>', '</b>', '<!--', '-->', '<!-- x -->', '<!--\n-->', '<br/>', '<a href=">">', '<!', '--', '&#34']
+         '<b>', '</b>', '<!--', '-->', '<!-- x -->', '<!--\n-->', '<br/>', '<a href=">">', '<!', '--', '&#34',
+         '<!--\n>x-->', '<!-- a\nb > c -->', '<!--\n', '\n>', '<!-->', '<!--->', '<!---->']
 KEYS = ['k', 'a', 'key', 'é']
 SAFE_KINDS = ('m', 'ms', 'h')
 STRING_KINDS = ('p', 'ps', 'm', 'ms', 'h')
@@ -175,7 +176,7 @@ def rand_fmt(rng):
 ATTR_NAMES = ['a', 'b', 'c', 'href', 'x', '{ns}a']
 
 
-def rand_attrs(rng, dup=0.1):
+def rand_attrs(rng, dup=0.3):
     out = []
     if rng.random() < dup:
         for _ in range(rng.randrange(0, 5)):
